@@ -388,6 +388,7 @@ macro_rules! run_service {
             }
             v
         };
+        let mut own_routes: std::collections::BTreeSet<String> = Default::default();
         let faults = [Fault::None, Fault::ReqTruncate, Fault::ReqGarbage, Fault::RespTruncate, Fault::RespGarbage, Fault::RespEmpty, Fault::RespStatus(404), Fault::RespStatus(520), Fault::HandlerRawGarbage, Fault::ReqTrailing, Fault::RespTrailing];
         $(
         for msg in &msgs {
@@ -424,12 +425,49 @@ macro_rules! run_service {
                     }))
                     .map_err(|p| p.downcast_ref::<String>().cloned().or_else(|| p.downcast_ref::<&str>().map(|s| s.to_string())).unwrap_or_default());
                     let rs = routes.lock().unwrap().clone();
+                    if !prerouted && fault == Fault::None {
+                        own_routes.extend(rs.iter().cloned());
+                    }
                     judge($out, &Case { svc: $svc, method: stringify!($m), raw: $raw }, msg, outcome, fault, &h, &rs, r);
                   }
                 }
             }
         }
         )*
+        // the generated server handed requests directly (not behind its router prefix, e.g. given
+        // to Network::start as the only service): it serves ITS OWN routes and nothing else -
+        // not another service's method of the same name, not its method name under another or
+        // no prefix
+        {
+            let h = H { svc: $svc, log: Default::default(), outcome: Arc::new(Mutex::new(Outcome::Ok)), raw_garbage: Default::default() };
+            let mut server = <$server>::new(h.clone());
+            for own in &own_routes {
+                let name = own.rsplit('/').next().unwrap_or("").to_string();
+                let foreign = [format!("/other.Service/{name}"), format!("/{name}"), name.clone(), format!("/x{own}"), format!("{own}/"), format!("/{}x/{name}", $svc)];
+                for f in foreign {
+                    if own_routes.contains(&f) {
+                        continue;
+                    }
+                    $out.evaluations += 1;
+                    let r = std::panic::catch_unwind(std::panic::AssertUnwindSafe(|| server.call(anemo::Request::new(Bytes::from(bincode::serialize(&Msg { a: 1, s: "x".into() }).unwrap())).with_route(f.clone())).now_or_never()));
+                    let ctx = format!("[{} server called directly with route {f:?} (its own routes: {own_routes:?})]", $svc);
+                    let seen = h.log.lock().unwrap().len();
+                    let mut v = |key: &str, m: String| $out.violations.push(json!({"key": key, "message": format!("{ctx} {m}"), "replay": {"unit": {"kind": "dynamic"}, "case": ctx}}));
+                    match r {
+                        Err(_) => v("typed-call-panics", "the server panicked".to_string()),
+                        Ok(None) => v("wrong-handler", "the call did not complete".to_string()),
+                        Ok(Some(Ok(resp))) => {
+                            if resp.status() != StatusCode::NotFound || seen != 0 {
+                                v("wrong-handler", format!("a route that is not one of the service's own was answered {:?} and reached {seen} handler(s); client and server must agree on the routes", resp.status()));
+                            }
+                        }
+                        Ok(Some(Err(e))) => match e {},
+                    }
+                    h.log.lock().unwrap().clear();
+                    *$out.classes.entry("dynamic:foreign-route".into()).or_default() += 1;
+                }
+            }
+        }
     }};
 }
 
